@@ -17,12 +17,18 @@
 -/
 namespace MM.C28
 
+inductive Kind where
+  | sleep | wake
+  deriving DecidableEq, Repr
+
 /-- A 64-byte signature field, abstractly: all zero bytes, arbitrary non-zero bytes, or a
-    signature made with key `key` over the signable bytes of `(origin, id, ts)`. -/
+    signature the holder of key `key` made when issuing a command of kind `kind` with fields
+    `(origin, id, ts)`.  The kind records what the key holder ISSUED; the bytes that are signed
+    (`SignableBytes` = origin ‖ id ‖ ts) do not contain it. -/
 inductive Sig where
   | zero
   | garbage
-  | signed (key origin id ts : Nat)
+  | signed (key : Nat) (kind : Kind) (origin id ts : Nat)
   deriving DecidableEq, Repr
 
 structure Cmd where
@@ -34,15 +40,19 @@ structure Cmd where
   seenBy : List Nat
   deriving DecidableEq, Repr
 
-inductive Kind where
-  | sleep | wake
-  deriving DecidableEq, Repr
-
 /-- Abstract signature verification with the configured public key. -/
 abbrev Verifier := Nat → Nat → Nat → Sig → Bool
 
-/-- Ideal signatures: valid iff made with the configured key (key 0) over exactly these fields. -/
-def idealV : Verifier := fun o i t s => s == .signed 0 o i t
+/-- Ideal signatures as the CODE verifies them: valid iff made with the configured key (key 0) over
+    exactly these origin, id and timestamp — whatever kind of command the key holder issued, because
+    the signed bytes carry no command type. -/
+def idealV : Verifier := fun o i t s =>
+  match s with
+  | .signed 0 _ o' i' t' => o' == o && i' == i && t' == t
+  | _ => false
+
+/-- What a verifier whose signed bytes bind the command type would accept for kind `k`. -/
+def idealKV (k : Kind) : Verifier := fun o i t s => s == .signed 0 k o i t
 
 structure FCfg where
   /-- `signingPubKey != nil`. -/
@@ -273,5 +283,41 @@ def deliverPinned (V : Verifier) (cfg : FCfg) (a : AState) (now : Int) (via : Vi
       | .wake =>
         let (s', cb) := mgrWake a.sl
         ({ f := f', sl := s' }, { out0 with wakeInvoked := true, onWake := if cb then 1 else 0 })
+
+/-! ### issuer side: `Agent.TriggerSleep` / `Agent.TriggerWake` (an operator action on this agent) -/
+
+/-- `FloodSleepCommand` / `FloodWakeCommand`: the local command is recorded as seen (from the agent
+    itself), a wake command is stored for peers that connect later, and the command goes to every
+    connected peer with `SeenBy = [local]`. -/
+def floodLocal (cfg : FCfg) (st : FState) (now : Int) (k : Kind) (c : Cmd) : FState × List (Nat × Cmd) :=
+  let st1 := { st with seen := (mark st.seen now c.origin c.id cfg.localID).1 }
+  let st2 := match k with
+    | .wake => { st1 with pending := some (c, now) }
+    | .sleep => st1
+  (st2, cfg.peers.map fun p => (p, { c with seenBy := [cfg.localID] }))
+
+/-- The command `TriggerSleep`/`TriggerWake` builds: origin = this agent, `Timestamp = time.Now().Unix()`,
+    signed with the configured private key when there is one (`CanSign`), otherwise unsigned. -/
+def issued (canSign : Bool) (cfg : FCfg) (now : Int) (k : Kind) (id : Nat) : Cmd :=
+  let ts := (now / 1000000000).toNat
+  { origin := cfg.localID, id, ts, sig := if canSign then .signed 0 k cfg.localID id ts else .zero, seenBy := [cfg.localID] }
+
+/-- `TriggerSleep`: flood first, then `Sleep()`.  `TriggerWake`: `Wake()` first (an error aborts),
+    then flood (repeatedly; the frames are identical). -/
+def trigger (canSign : Bool) (cfg : FCfg) (a : AState) (now : Int) (k : Kind) (id : Nat) : AState × Outcome :=
+  let c := issued canSign cfg now k id
+  match k with
+  | .sleep =>
+    let (f', sends) := floodLocal cfg a.f now k c
+    let (s', cb) := mgrSleep a.sl
+    ({ f := f', sl := s' },
+     { Outcome.none with sleepInvoked := true, onSleep := (if cb then 1 else 0), sends := sends.map fun (p, c) => (p, k, c) })
+  | .wake =>
+    let (s', cb) := mgrWake a.sl
+    if !cb then (a, { Outcome.none with wakeInvoked := true })
+    else
+      let (f', sends) := floodLocal cfg a.f now k c
+      ({ f := f', sl := s' },
+       { Outcome.none with wakeInvoked := true, onWake := 1, sends := sends.map fun (p, c) => (p, k, c) })
 
 end MM.C28
